@@ -154,6 +154,16 @@ Proof.
       rewrite <- (lock_replay _ _ _ _ _ _ H); assumption.
 Qed.
 
+(* every logged event is on a node of the graph and sets I or the recovery status *)
+Lemma lock_nodes : forall st0 rows0 evs txs rws st, lock st0 rows0 evs txs rws st ->
+  Forall (fun e => In (ev_node e) (gnodes g) /\ (ev_st e = stI \/ ev_st e = rec_status)) evs.
+Proof.
+  intros st0 rows0 evs txs rws st H. induction H as [|evs txs rws st t u H IH|evs txs rws st t u v H IH].
+  - constructor.
+  - constructor; [split; [assumption|right; reflexivity]|exact IH].
+  - constructor; [split; [assumption|left; reflexivity]|exact IH].
+Qed.
+
 (* times of the log are ordered and stay before tmax *)
 Lemma lock_times : forall st0 rows0 evs txs rws st, lock st0 rows0 evs txs rws st ->
   Forall (fun e => xlt (ev_time e) tmax = true) evs /\
@@ -314,6 +324,7 @@ Theorem gillespie_full_output : forall i0 r0 fuel out, wf_init g kind i0 r0 ->
     map (fun x : tx => fst (fst x)) txs = map ev_time (filter (fun e => N.eqb (ev_st e) stI) evs) /\
     map (fun x : tx => snd x) txs = map ev_node (filter (fun e => N.eqb (ev_st e) stI) evs) /\
     Forall (fun e => xlt (ev_time e) tmax = true) evs /\
+    Forall (fun e => In (ev_node e) (gnodes g) /\ (ev_st e = stI \/ ev_st e = rec_status kind)) evs /\
     (* the arrays: the initial row, then one row per logged event, at the event's time,
        equal to the census of the statuses replayed up to and including that event *)
     so_rows out = init_rows g kind tmin i0 (r0_list kind r0) ++ rs /\
@@ -341,6 +352,7 @@ Proof.
   { rewrite map_rev. transitivity (rev (map ev_node (filter (fun e : ev => N.eqb (ev_st e) stI) evs))); [f_equal; exact Htn|].
     rewrite <- map_rev, filter_rev. reflexivity. }
   split; [apply Forall_rev; exact Hx|].
+  split; [apply Forall_rev; apply (lock_nodes g kind tmax _ _ _ _ _ _ Hl)|].
   split.
   { rewrite Hr, rev_app_distr. f_equal. unfold init_rows. destruct kind; reflexivity. }
   split; [rewrite !map_rev; f_equal; exact Htimes|].
